@@ -75,11 +75,6 @@ theorem cli_nquads {env : Env} {senv : SEnv} (henv : EnvOK env senv) (hn : Names
   exact noNL_of_noEol (NQ.noEol_renderStmtBody _ st hwf)
 
 
-/-! ### non-vacuity: the example document of C01 satisfies every hypothesis, in both partitioning modes -/
-
-namespace Ex
-open Props.C01.Ex
-
 instance (k : MapType) (v : Str) (tt : TermType) : Decidable (SynMap k v tt) := by unfold SynMap EscapeFree; infer_instance
 instance (k : MapType) (v : Str) : Decidable (CleanMap k v) := by unfold CleanMap EscapeFree; infer_instance
 
@@ -93,7 +88,34 @@ instance (env : Env) (rules : List Rule) (r : Rule) : Decidable (SynSafe env rul
         '\\' ∉ r.langDatatypeMapValue ∧ '{' ∉ r.langDatatypeMapValue ∧ '"' ∉ r.langDatatypeMapValue)))
     ⟨fun ⟨a, b, c, d, e, f, g⟩ => ⟨a, b, c, d, e, f, g⟩, fun h => ⟨h.safe, h.subj, h.pred, h.graph, h.obj, h.noStarO, h.lang⟩⟩
 
-theorem synSafe : ∀ r ∈ normalizeDoc doc, SynSafe env (normalizeDoc doc) r := by decide +kernel
+/-- token safety read off the mapping (decidable, executable): every rule of the normalised table is `SynSafe` -/
+def DocSynSafe (env : Env) (doc : Doc) : Bool :=
+  (normalizeDoc doc).all fun r => decide (SynSafe env (normalizeDoc doc) r)
+
+/-- the same with hypotheses that are all decidable predicates of the mapping document, the tables and the configuration -/
+theorem cli_nquads_syntactic {env : Env} {senv : SEnv} (henv : EnvOK env senv) (hn : NamesOK senv) (hf : env.fmt = .nquads)
+    (doc : Doc) (hfrag : FragmentOK senv doc = true) (htab : TablesOK senv doc = true) (hF4 : NoF4 senv doc = true)
+    (hok : GrammarOK senv doc = true) (hsyn : DocSynSafe env doc = true)
+    (mode : PartMode) (ls : List Str) (hp : partitionLabels mode (normalizeDoc doc) = .ok ls)
+    (old : Str) (chunk buf : Nat) :
+    ∃ groups, groupResults env (withLabels (normalizeDoc doc) ls) = .ok groups ∧
+      groups.flatten.Nodup ∧
+      (∀ x, x ∈ groups.flatten ↔ x ∈ evalDoc senv doc) ∧
+      (∀ x ∈ groups.flatten, ∃ st : NQ.Stmt, NQ.wfStmt st = true ∧ NQ.parseLine (x ++ ['.']) = some st ∧
+        x = NQ.renderStmtBody (shapeOf senv.fmt) st) ∧
+      ∀ sched, Interleaving (groups.map (workerWrites Gen.writerShape chunk buf)) sched →
+        (lines NL (cliFile Gen.mainShape old sched)).Perm (groups.flatten.map (renderLine Gen.writerShape)) :=
+  cli_nquads henv hn hf doc hfrag htab hF4 hok mode ls hp
+    (fun r hr => tokenSafe_of_synSafe _ _ r (by
+      have := List.all_eq_true.mp hsyn r hr
+      simpa using this)) old chunk buf
+
+/-! ### non-vacuity: the example document of C01 satisfies every hypothesis, in both partitioning modes -/
+
+namespace Ex
+open Props.C01.Ex
+
+theorem synSafe : DocSynSafe env doc = true := by decide +kernel
 
 theorem labels : partitionLabels .partialAggregations (normalizeDoc doc) =
     .ok ["1-3-1-2".toList, "1-2-2-1".toList, "1-1-3-2".toList] := by decide +kernel
@@ -101,10 +123,10 @@ theorem labels : partitionLabels .partialAggregations (normalizeDoc doc) =
 theorem labelsMax : partitionLabels .maximal (normalizeDoc doc) =
     .ok ["1-3-1-1".toList, "1-2-1-1".toList, "1-1-1-1".toList] := by decide +kernel
 
-example (old : Str) (chunk buf : Nat) := cli_nquads envOK namesOK rfl doc fragmentOK tablesOK noF4 (by decide +kernel)
-  .partialAggregations _ labels (fun r hr => tokenSafe_of_synSafe _ _ r (synSafe r hr)) old chunk buf
-example (old : Str) (chunk buf : Nat) := cli_nquads envOK namesOK rfl doc fragmentOK tablesOK noF4 (by decide +kernel)
-  .maximal _ labelsMax (fun r hr => tokenSafe_of_synSafe _ _ r (synSafe r hr)) old chunk buf
+example (old : Str) (chunk buf : Nat) := cli_nquads_syntactic envOK namesOK rfl doc fragmentOK tablesOK noF4 (by decide +kernel)
+  synSafe .partialAggregations _ labels old chunk buf
+example (old : Str) (chunk buf : Nat) := cli_nquads_syntactic envOK namesOK rfl doc fragmentOK tablesOK noF4 (by decide +kernel)
+  synSafe .maximal _ labelsMax old chunk buf
 
 end Ex
 
